@@ -26,6 +26,12 @@ PoundSign == "$"
 GbpOfPence(p) ==
   LET a == FAbs(p) IN (IF p < 0 THEN "-" ELSE "") \o PoundSign \o Grouped(a \div 100) \o "." \o Pad(a - 100 * (a \div 100), 2)
 Gbp(k) == GbpOfPence(RoundPence(k))
+\* (pounds + k thousandths) for magnitudes beyond TLC's 32-bit integers: pounds are whole, so rounding only concerns k
+\* (the total is positive, so a midpoint goes UP whatever the sign of k: \div is the floor)
+GbpBig(pounds, k) == GbpOfPence(pounds * 100 + ((k + 5) \div 10))
+\* n/d thousandths (n >= 0, d > 0) rounded to pence, midpoints away from zero: an average cost
+RoundPenceRatio(n, d) == (2 * n + 10 * d) \div (20 * d)
+GbpRatio(n, d) == GbpOfPence(RoundPenceRatio(n, d))
 \* rounding never moves a value by more than half a penny and is symmetric
 RoundLaw(k) == /\ FAbs(10 * RoundPence(k) - k) <= 5
                /\ RoundPence(-k) = -RoundPence(k)
